@@ -182,6 +182,9 @@ func (fr *frame) callStatic(x ssa.CallInstruction, callee *ssa.Function, args []
 	fx := fr.fx
 	c2 := fx.g.contractFor(callee)
 	if c2 == nil {
+		if v, ok := fr.inlineStatic(x, callee, args, st); ok {
+			return v
+		}
 		panic(unsupported("call to function without contract: " + fx.g.funcName(callee)))
 	}
 	if len(c2.FParams) > 0 {
@@ -224,6 +227,96 @@ func (fr *frame) callStatic(x ssa.CallInstruction, callee *ssa.Function, args []
 		}
 	}
 	return fr.applyContract(x, callee, nil, c2, args, st)
+}
+
+// inlineStatic: a call to a function of the module that has no contract of its own (a small helper) is
+// executed in place, like a closure: its body is part of the caller's proof. Only loop-free,
+// defer-free, non-recursive bodies; anything else stays "call to function without contract".
+func (fr *frame) inlineStatic(x ssa.CallInstruction, callee *ssa.Function, args []Val, st *State) (res Val, ok bool) {
+	fx := fr.fx
+	if callee.Pkg == nil || len(callee.Blocks) == 0 || fx.depth >= 3 || callee == fr.fn || callee == fx.fn {
+		return nil, false
+	}
+	inModule := false
+	for _, sp := range fx.g.spkgs {
+		if sp == callee.Pkg {
+			inModule = true
+		}
+	}
+	if !inModule || callee.Signature.Recv() != nil && callee.Signature.Variadic() {
+		return nil, false
+	}
+	for _, b := range callee.Blocks {
+		for _, in := range b.Instrs {
+			switch in.(type) {
+			case *ssa.Defer, *ssa.Go, *ssa.Range, *ssa.Next, *ssa.Select:
+				return nil, false
+			}
+		}
+	}
+	sub := fx.g.newFrame(fx, callee, nil)
+	if len(sub.loops) > 0 || len(callee.Params) != len(args) {
+		return nil, false
+	}
+	for k, p := range callee.Params {
+		sub.vals[p] = args[k]
+	}
+	fx.depth++
+	exits := sub.run(st.clone())
+	fx.depth--
+	var edges []edge
+	var rets []*Exit
+	for _, e := range exits {
+		switch e.Kind {
+		case "return":
+			edges = append(edges, edge{st: e.St, cond: e.St.reach})
+			rets = append(rets, e)
+		case "panic":
+			fr.exits = append(fr.exits, e)
+		}
+	}
+	if len(edges) == 0 {
+		fx.s.assert(not(st.reach))
+		var outs []Val
+		for i := 0; i < callee.Signature.Results().Len(); i++ {
+			outs = append(outs, fr.freshVal("inl", callee.Signature.Results().At(i).Type()))
+		}
+		if len(outs) == 1 {
+			return outs[0], true
+		}
+		return TupleV{V: outs}, true
+	}
+	m := sub.mergeStates(callee.Blocks[0], edges)
+	*st = *m
+	// the result: one fresh value per result, equal to the returned value on each return path
+	rt := callee.Signature.Results()
+	var outs []Val
+	for i := 0; i < rt.Len(); i++ {
+		var v Val
+		if len(rets) == 1 {
+			v = rets[0].Results[i]
+		} else {
+			v = fr.freshVal("inl", rt.At(i).Type())
+			nl := fx.g.toLeaves(v)
+			for _, e := range rets {
+				ol := fx.g.toLeaves(e.Results[i])
+				if len(ol) != len(nl) {
+					return nil, false
+				}
+				for k := range nl {
+					fx.s.assert(implies(e.St.reach, eq(nl[k], ol[k])))
+				}
+			}
+		}
+		outs = append(outs, v)
+	}
+	switch len(outs) {
+	case 0:
+		return TupleV{}, true
+	case 1:
+		return outs[0], true
+	}
+	return TupleV{V: outs}, true
 }
 
 func (fr *frame) applyContract(x ssa.CallInstruction, callee *ssa.Function, method *types.Func, c2 *Contract, args []Val, st *State) Val {
